@@ -179,6 +179,57 @@ Theorem lazy_node_stmt_debug_attrs_any_variable : forall {rx} t fl cfg glob (reg
     (fst (poll_step L_exec_stmt p)).
 Proof. intros rx. exact (@lazy_node_stmt_eq rx). Qed.
 
+(* SCOPED variable, strict `node @scope.name` (second audit): the node is created and decorated FIRST (node_added cfg s text
+   vloc mn = s with exactly one more node carrying exactly node_dbg_attrs cfg text vloc mn), THEN the scope expression is
+   evaluated in that state (as Variable::add does in strict.rs); it yields the syntax node sn (reaching s1, p1) and `name`
+   is not yet defined on sn (scope_frame = the scoped variables of sn).  The statement succeeds: the graph is the one after
+   evaluating the scope expression, and name is bound on sn, immutably, to the new node (index = old node count). *)
+From TSG Require Import Proofs.DebugStmtScoped.
+Theorem strict_node_stmt_debug_attrs_scoped : forall {rx} t fl cfg glob (regexes : list rx) find call fuel le scope name vl vtext l s p sn s1 p1,
+  cfg_distinct cfg -> match_available cfg (le_match le) (le_full le) ->
+  snd (poll_step L_exec_stmt p) = false ->
+  eval t fl glob call fuel le scope (node_added cfg s vtext vl (first_full_match (le_match le) (le_full le))) (fst (poll_step L_exec_stmt p))
+    = Ok (VSyn sn, s1, p1) ->
+  alist_get name (scope_frame (s_scoped s1) sn) = None ->
+  exec_stmt t fl cfg glob regexes find call (S fuel) le (SNode (VarS scope name vl) vtext l) s p =
+  Ok (tt, {| s_graph := s_graph s1; s_locals := s_locals s1;
+             s_scoped := scopes_set (s_scoped s1) sn (scope_frame (s_scoped s1) sn ++ [(name, (VGraph (N.of_nat (length (s_graph s))), false))]);
+             s_params := s_params s1 |}, p1).
+Proof. intros rx. exact (@strict_node_stmt_scoped rx). Qed.
+
+(* what node_added is: exactly one node more, with exactly the configured attributes and no edges; nothing else differs *)
+Theorem node_added_spec : forall cfg s vtext vloc mn,
+  s_graph (node_added cfg s vtext vloc mn) = s_graph s ++ [ {| g_attrs := node_dbg_attrs cfg vtext vloc mn; g_edges := [] |} ] /\
+  s_locals (node_added cfg s vtext vloc mn) = s_locals s /\ s_scoped (node_added cfg s vtext vloc mn) = s_scoped s /\
+  s_params (node_added cfg s vtext vloc mn) = s_params s.
+Proof. intros. repeat split. Qed.
+
+(* SCOPED variable, lazy (execution phase): the node is created and decorated, the scope expression is turned into the lazy
+   value sv (not forced), the cell of `name` is still open (cell_pairs = Some pairs: no cell yet, pairs = [], or unforced):
+   the statement succeeds, a new thunk holds the node, and the definition (sv, that thunk, statement context) is APPENDED
+   to the cell of `name` *)
+Theorem lazy_node_stmt_debug_attrs_scoped : forall {rx} t fl cfg glob (regexes : list rx) find call fuel le scope name vl vtext l s p sv s1 p1 pairs,
+  cfg_distinct cfg -> match_available cfg (ll_match le) (ll_full le) ->
+  snd (poll_step L_exec_stmt p) = false ->
+  leval t fl glob call fuel le scope (lnode_added cfg s vtext vl (first_full_match (ll_match le) (ll_full le))) (fst (poll_step L_exec_stmt p))
+    = Ok (sv, s1, p1) ->
+  cell_pairs (l_scoped s1) name = Some pairs ->
+  lexec_stmt t fl cfg glob regexes find call (S fuel) le (SNode (VarS scope name vl) vtext l) s p =
+  Ok (tt, {| l_graph := l_graph s1; l_locals := l_locals s1;
+             l_store := l_store s1 ++ [ {| th_state := TUnforced (LValue (VGraph (N.of_nat (length (l_graph s))))); th_dbg := ll_ctx le |} ];
+             l_scoped := alist_set name (SVUnforced (pairs ++ [(sv, LVar (N.of_nat (length (l_store s1))), ll_ctx le)])) (l_scoped s1);
+             l_edges := l_edges s1; l_attrs := l_attrs s1; l_prints := l_prints s1;
+             l_params := l_params s1; l_prev := l_prev s1 |}, p1).
+Proof. intros rx. exact (@lazy_node_stmt_scoped rx). Qed.
+
+Theorem lnode_added_spec : forall cfg s vtext vloc mn,
+  l_graph (lnode_added cfg s vtext vloc mn) = l_graph s ++ [ {| g_attrs := node_dbg_attrs cfg vtext vloc mn; g_edges := [] |} ] /\
+  l_locals (lnode_added cfg s vtext vloc mn) = l_locals s /\ l_store (lnode_added cfg s vtext vloc mn) = l_store s /\
+  l_scoped (lnode_added cfg s vtext vloc mn) = l_scoped s /\ l_edges (lnode_added cfg s vtext vloc mn) = l_edges s /\
+  l_attrs (lnode_added cfg s vtext vloc mn) = l_attrs s /\ l_prints (lnode_added cfg s vtext vloc mn) = l_prints s /\
+  l_params (lnode_added cfg s vtext vloc mn) = l_params s /\ l_prev (lnode_added cfg s vtext vloc mn) = l_prev s.
+Proof. intros. repeat split. Qed.
+
 (* strict `edge src -> snk` at location l, whose endpoints evaluate to graph nodes a and b (reaching state s2): the
    statement succeeds; in the final graph the edge a -> b exists; if it existed before it keeps exactly the attributes it
    had (behaviour after fix F8), if it is NEW its attributes are exactly edge_dbg_attrs cfg l; node a's own attributes,
@@ -291,4 +342,43 @@ Proof.
     + reflexivity.
     + destruct Hes as [->| ->]; repeat constructor.
     + exists s', nd'. split; [exact E|]. split; [exact Hn|]. rewrite He. destruct Hes as [->| ->]; reflexivity.
+Qed.
+
+(* non-vacuity of the scoped forms: all three attributes configured, local n bound to syntax node 7:  `node @n.d`  (variable
+   at line 2 column 6) in both interpreters; a second `node @n.d` in the strict result state is NOT covered (d is defined) *)
+Definition c15_ss : sstate := {| s_graph := [new_gnode]; s_locals := [[([110], (VSyn 7, false))]]; s_scoped := []; s_params := [] |}.
+Definition c15_ls : lstate :=
+  {| l_graph := [new_gnode]; l_locals := [[([110], (LValue (VSyn 7), false))]]; l_store := []; l_scoped := []; l_edges := []; l_attrs := [];
+     l_prints := []; l_params := []; l_prev := [] |}.
+Definition c15_lle : llenv := {| ll_match := [(0, [7; 8])]; ll_full := 0; ll_caps := []; ll_ctx := {| sc_stmt := (1, 0); sc_stanza := (0, 0); sc_node := 7 |} |}.
+Example c15_scoped_nonvacuous :
+  exec_stmt c15_t c15_fl c15_cfg [] (@nil unit) (fun _ _ => None) (stdlib_call (fun _ _ _ => None) c15_t) 2 c15_le
+    (SNode (VarS (EUnscoped [110] (1, 6)) [100] (1, 5)) [64;110;46;100] (1, 0)) c15_ss (polls0 None) =
+  Ok (tt, {| s_graph := [ new_gnode; {| g_attrs := [([118], VStr [64;110;46;100]); ([108], VStr (loc_text (1, 5))); ([109], VSyn 7)]; g_edges := [] |} ];
+             s_locals := [[([110], (VSyn 7, false))]]; s_scoped := [(7, [([100], (VGraph 1, false))])]; s_params := [] |},
+      fst (poll_step L_exec_stmt (polls0 None))) /\
+  lexec_stmt c15_t c15_fl c15_cfg [] (@nil unit) (fun _ _ => None) (stdlib_call (fun _ _ _ => None) c15_t) 2 c15_lle
+    (SNode (VarS (EUnscoped [110] (1, 6)) [100] (1, 5)) [64;110;46;100] (1, 0)) c15_ls (polls0 None) =
+  Ok (tt, {| l_graph := [ new_gnode; {| g_attrs := [([118], VStr [64;110;46;100]); ([108], VStr (loc_text (1, 5))); ([109], VSyn 7)]; g_edges := [] |} ];
+             l_locals := [[([110], (LValue (VSyn 7), false))]];
+             l_store := [ {| th_state := TUnforced (LValue (VGraph 1)); th_dbg := ll_ctx c15_lle |} ];
+             l_scoped := [([100], SVUnforced [(LValue (VSyn 7), LVar 0, ll_ctx c15_lle)])];
+             l_edges := []; l_attrs := []; l_prints := []; l_params := []; l_prev := [] |},
+      fst (poll_step L_exec_stmt (polls0 None))).
+Proof.
+  split.
+  - apply (strict_node_stmt_debug_attrs_scoped c15_t c15_fl c15_cfg [] (@nil unit) (fun _ _ => None) (stdlib_call (fun _ _ _ => None) c15_t) 1 c15_le
+             (EUnscoped [110] (1, 6)) [100] (1, 5) [64;110;46;100] (1, 0) c15_ss (polls0 None) 7
+             (node_added c15_cfg c15_ss [64;110;46;100] (1, 5) 7) (fst (poll_step L_exec_stmt (polls0 None))) c15_cfg_distinct).
+    + right. discriminate.
+    + reflexivity.
+    + reflexivity.
+    + reflexivity.
+  - apply (lazy_node_stmt_debug_attrs_scoped c15_t c15_fl c15_cfg [] (@nil unit) (fun _ _ => None) (stdlib_call (fun _ _ _ => None) c15_t) 1 c15_lle
+             (EUnscoped [110] (1, 6)) [100] (1, 5) [64;110;46;100] (1, 0) c15_ls (polls0 None) (LValue (VSyn 7))
+             (lnode_added c15_cfg c15_ls [64;110;46;100] (1, 5) 7) (fst (poll_step L_exec_stmt (polls0 None))) [] c15_cfg_distinct).
+    + right. discriminate.
+    + reflexivity.
+    + reflexivity.
+    + reflexivity.
 Qed.
